@@ -30,7 +30,7 @@ func (fr *Frame) frameExemptions(c *Contract, f *types.Func, names map[string]*V
 			ex.all = true
 			continue
 		}
-		if strings.HasPrefix(d, "heap(") || d == "big" || strings.HasPrefix(d, "mapof(") {
+		if strings.HasPrefix(d, "heap(") || d == "big" || d == "streams" || strings.HasPrefix(d, "mapof(") {
 			hs, err := fr.eng.designatorHeaps(c, f, d)
 			if err != nil {
 				return nil, err
@@ -38,6 +38,18 @@ func (fr *Frame) frameExemptions(c *Contract, f *types.Func, names map[string]*V
 			for k := range hs {
 				ex.whole[k] = true
 			}
+			continue
+		}
+		if strings.HasPrefix(d, "stream(") && strings.HasSuffix(d, ")") {
+			x, err := parser.ParseExpr(d[7 : len(d)-1])
+			if err != nil {
+				return nil, err
+			}
+			w := env.evalGo(x)
+			if env.err != nil {
+				return nil, env.err
+			}
+			ex.refs[streamHeap] = append(ex.refs[streamHeap], fr.writerKey(w))
 			continue
 		}
 		if strings.HasPrefix(d, "elems(") && strings.HasSuffix(d, ")") {
